@@ -3,7 +3,9 @@
 Oracle: executable connection model (set of validated flows; cookie learned from a probe SYN at the boundary)."""
 import time
 
-from .. import core, gen, pkt, findings, sigref
+from .. import core, gen, pkt, findings, sigref, canon
+from ..flow import Flow, app_payload
+from ..protos import http, rpc
 from ..driver import Config
 from ..pkt import SYN, ACK, PSH, FIN, RST, URG, ECE, CWR, NS
 
@@ -287,6 +289,45 @@ def boundary_cookies(ctx):
                 ctx.violation(e_.split(" ")[0] + ":boundary", e_, observed=r.reply.hex())
 
 
+def split_twin(ctx, cfg):
+    """"PSH iff the reply carries application data", for the incrementally parsed protocols: the same request delivered
+    whole on one connection and in two or three segments on another yields the same application data (Date masked) - and
+    nothing but bare ACKs before the segment that completes it.  (C11 explores the cuts systematically; here every
+    script sees one.)"""
+    rng = ctx.rng
+    if rng.random() < 0.5:
+        req = http.gen(rng, max_target=20, max_headers=3)
+    else:
+        c = rpc.gen_call(rng, prog=rpc.PMAP, vers=rng.choice([2, 3, 4]), proc=rng.choice([0, 3, 4]), maxauth=40)
+        req = rpc.record(bytes([rng.choice([0x01, 0x7A, 0x99, 0xFE])]) + c["msg"][1:])
+    real = ctx.__dict__.setdefault("_real", sigref.RealMatcher(ctx))
+    if len(req) < 3 or sigref.identify(req, False) == sigref.NOMATCH or real.identify(req, False) != sigref.identify(req, False):
+        return
+    outs = []
+    e0, dp = gen.endp(rng, cfg, rng.random() < 0.5), gen.rnd_port(rng)
+    for cuts in ([], sorted(rng.sample(range(1, len(req)), rng.choice([1, 1, 2]) if len(req) > 3 else 1))):
+        # the contacted endpoint is part of some replies (portmapper): same server address and port, another client
+        e1 = gen.endp(rng, cfg, e0.v6)
+        f = Flow.fresh(ctx, pkt.Endp(e1.cmac, e0.smac, e1.cip, e0.sip, fuzz=rng), dp=dp)
+        if f.syn() is None:
+            return
+        pieces, last = [], 0
+        for cpos in list(cuts) + [len(req)]:
+            pieces.append(req[last:cpos])
+            last = cpos
+        reps = [app_payload(f.data(piece)) for piece in pieces]
+        outs.append((cuts, [canon.mask_app(x) if x else None for x in reps]))
+    whole, (cuts, parts) = outs[0][1][0], outs[1]
+    ctx.stats["split_twins"] += 1
+    got = [x for x in parts if x]
+    # (segments after the completing one are not constrained: the parsers rest in their final state)
+    if (whole is None) != (not got) or (whole is not None and got[0] != whole):
+        ctx.violation("split_changes_application_data", "request answered with %s when delivered whole, with %s when cut at %s" % (
+            "%d bytes" % len(whole) if whole else "a bare ACK", [len(x) if x else None for x in parts], cuts),
+            observed=str([len(x) if x else None for x in parts]), expected="the same application data in the completing segment",
+            extra={"stream": req.hex()[:2000], "cuts": cuts})
+
+
 def shard(ctx, budget_s):
     rng = ctx.rng
     deadline = time.time() + budget_s
@@ -310,6 +351,8 @@ def shard(ctx, budget_s):
                 ctx.nontrivial(repr(word))
             if ctx.shard == 0 and len(ctx.samples) < 3 and acc and rej:
                 ctx.sample({"script": [list(map(str, w)) for w in word][:25]})
+            if rng.random() < 0.3:
+                split_twin(ctx, cfg)
         n += 1
 
 
